@@ -2418,6 +2418,12 @@ func (s *sim) finishCall() {
 			if r.blk != nil && !r.blk.canon {
 				allCanon = false
 			}
+			if r.blk != nil && r.reqH != 0 && r.blk.h != r.reqH {
+				// a (canonical) block of another height than the one asked for: outside the provider
+				// contract (light/provider/http rejects it); the detector takes it for a diverging
+				// header and may legitimately end the call with an attack error
+				allCanon = false
+			}
 			if r.prov == prim && (r.blk == nil || (r.reqH != 0 && r.blk.h != r.reqH)) {
 				primOK = false
 			}
